@@ -227,6 +227,20 @@ def classify(spec) -> list:
                 flags.add('dv_cond')
         if n['kind'] == 'metric':
             flags.add('metrics')
+    sel_by_key = {c['key']: c for c in spec['sel']}
+    for c in spec['constraints']:
+        if all(x in sel_by_key for x in c['choices']):
+            order = sorted(c['choices'], key=lambda k: (sel_by_key[k]['id'], k))
+            origs = [sel_by_key[k]['origin'] for k in order]
+            if c['type'] in ('UNORDERED', 'UNORDERED_NOREPL'):
+                for i in range(len(order)):
+                    for j in range(i + 1, len(order)):
+                        below = any(origs[i] == o or origs[i] in reach(o, full) for o in sel_by_key[order[j]]['options'])
+                        if origs[i] not in perm and (origs[j] in perm or below):
+                            flags.add('con_order_later_active_first')
+            if c['type'] == 'PERMUTATION' and len(order) > max(len(sel_by_key[k]['options']) for k in order) \
+                    and not all(o in perm for o in origs):
+                flags.add('con_perm_short')
     for c in spec['constraints']:
         flags.add('con_' + c['type'].lower())
         if all(x in nm for x in c['choices']):
